@@ -143,3 +143,54 @@ package index
 //@   ensures[also_when_it_waits_in_the_dictionary_being_flushed] (!old((s.mutable.present[bucketID] && has(cast(s.mutable.view[bucketID], "map[string]uint32"), str(key)))) && old((s.immutable != nil && s.immutable.present[bucketID] && has(cast(s.immutable.view[bucketID], "map[string]uint32"), str(key))))) ==> (err == nil && !isNew && id == old(cast(s.immutable.view[bucketID], "map[string]uint32")[str(key)]) && calls(createFn) == old(calls(createFn)))
 //@   ensures[an_id_is_generated_at_most_once_per_call] (calls(createFn) == old(calls(createFn)) || calls(createFn) == old(calls(createFn)) + 1) && (isNew ==> (err == nil && calls(createFn) == old(calls(createFn)) + 1))
 //@ end
+
+//@ # ---- schema registration (C09): GenFieldID / GenTagKeyID read the schema without the lock and update it under the
+//@ # lock, so the schema they read may be stale: nothing is assumed about it. What they return must be what the
+//@ # schema REGISTERED for the metric says afterwards, and a registered schema is never replaced ---------------------
+//@ globalinv constants.ErrTooManyTagKeys != nil && constants.ErrTooManyFields != nil
+//@ func github.com/lindb/lindb/series/tag.Metas.Find
+//@   prop C09
+//@   modifies nothing
+//@   ensures result1 ==> exists(i, 0, len(fms), fms[i].Key == tagKey && fms[i].ID == result0.ID)
+//@   ensures !result1 ==> forall(i, 0, len(fms), fms[i].Key != tagKey)
+//@   loop 1 invariant forall(i, 0, rangeindex + 1, fms[i].Key != tagKey)
+//@ end
+//@ func github.com/lindb/lindb/series/field.Metas.Find
+//@   prop C09
+//@   modifies nothing
+//@   ensures result1 ==> exists(i, 0, len(fms), fms[i].Name == fieldName && fms[i].ID == result0.ID)
+//@   ensures !result1 ==> forall(i, 0, len(fms), fms[i].Name != fieldName)
+//@   loop 1 invariant forall(i, 0, rangeindex + 1, fms[i].Name != fieldName)
+//@ end
+//@ func metricSchemaStore.GetSchema
+//@   assume
+//@   note the schema is read without the write lock: by the time the caller holds the lock it may be stale, so no relation between the result and the registered schema is assumed
+//@   modifies nothing
+//@ end
+//@ func metricSchemaStore.schemaForUpdate
+//@   prop C09
+//@   requires s.mutable != nil
+//@   modifies s.mutable.present, s.mutable.view
+//@   ensures[the_result_is_the_registered_schema] result != nil && s.mutable.present[uint32(id)] && cast(s.mutable.view[uint32(id)], "*metric.Schema") == result
+//@   ensures[a_registered_schema_is_never_replaced] old(s.mutable.present[uint32(id)] && cast(s.mutable.view[uint32(id)], "*metric.Schema") != nil) ==> result == old(cast(s.mutable.view[uint32(id)], "*metric.Schema"))
+//@   ensures[other_metrics_keep_their_schema] all(k, "uint32", k != uint32(id) ==> (s.mutable.present[k] == old(s.mutable.present[k]) && s.mutable.view[k] == old(s.mutable.view[k])))
+//@ end
+//@ func metricSchemaStore.genTagKeyID@createFn
+//@   modifies nothing
+//@ end
+//@ func metricSchemaStore.genTagKeyID
+//@   prop C09
+//@   arith math
+//@   requires s.mutable != nil && createFn != nil && limits != nil
+//@   modifies *
+//@   ensures[the_returned_id_is_the_id_of_the_tag_key_in_the_registered_schema] err == nil ==> (s.mutable.present[uint32(id)] && cast(s.mutable.view[uint32(id)], "*metric.Schema") != nil && hint(cast(s.mutable.view[uint32(id)], "*metric.Schema").TagKeys[len(cast(s.mutable.view[uint32(id)], "*metric.Schema").TagKeys) - 1].Key, exists(i, 0, len(cast(s.mutable.view[uint32(id)], "*metric.Schema").TagKeys), cast(s.mutable.view[uint32(id)], "*metric.Schema").TagKeys[i].Key == str(tagKey) && cast(s.mutable.view[uint32(id)], "*metric.Schema").TagKeys[i].ID == tagKeyID)))
+//@   ensures[a_registered_schema_is_never_replaced] old(s.mutable.present[uint32(id)] && cast(s.mutable.view[uint32(id)], "*metric.Schema") != nil) ==> cast(s.mutable.view[uint32(id)], "*metric.Schema") == old(cast(s.mutable.view[uint32(id)], "*metric.Schema"))
+//@ end
+//@ func metricSchemaStore.genFieldID
+//@   prop C09
+//@   arith math
+//@   requires s.mutable != nil && limits != nil
+//@   modifies *
+//@   ensures[the_returned_id_is_the_id_of_the_field_in_the_registered_schema] err == nil ==> (s.mutable.present[uint32(id)] && cast(s.mutable.view[uint32(id)], "*metric.Schema") != nil && exists(i, 0, len(cast(s.mutable.view[uint32(id)], "*metric.Schema").Fields), cast(s.mutable.view[uint32(id)], "*metric.Schema").Fields[i].Name == f.Name && cast(s.mutable.view[uint32(id)], "*metric.Schema").Fields[i].ID == fID))
+//@   ensures[a_registered_schema_is_never_replaced] old(s.mutable.present[uint32(id)] && cast(s.mutable.view[uint32(id)], "*metric.Schema") != nil) ==> cast(s.mutable.view[uint32(id)], "*metric.Schema") == old(cast(s.mutable.view[uint32(id)], "*metric.Schema"))
+//@ end
